@@ -124,9 +124,19 @@ static inline int shim_sto_class(sv s, unsigned long maxdigits) {
   return 1; }
 static inline unsigned long shim_stoul(sv s) { if (!shim_sto_class(s, 20)) return 0; return nondet_ulong(); }
 static inline long shim_stol(sv s) { if (!shim_sto_class(s, 19)) return 0; return nondet_long(); }
-static inline int shim_stoi(sv s) { if (!shim_sto_class(s, 10)) return 0; return nondet_int(); }
+/* a number that starts with a digit is not negative */
+static inline int shim_stoi(sv s) { if (!shim_sto_class(s, 10)) return 0; int r = nondet_int(); if (s.data[0] >= '0' && s.data[0] <= '9') __CPROVER_assume(r >= 0); return r; }
 static inline double shim_stod(sv s) { if (!shim_sto_class(s, 300)) return 0; return nondet_double(); }
 static inline float shim_stof(sv s) { if (!shim_sto_class(s, 38)) return 0; return nondet_float(); }
+/* std::stringstream used as an output buffer: only the number of bytes written is modelled (saturating), the bytes are opaque */
+typedef struct { unsigned long len; } strbuf;
+#define STRBUF_MAX ((unsigned long)1 << 40)
+static inline strbuf strbuf_empty(void) { strbuf b; b.len = 0; return b; }
+static inline strbuf *strbuf_put_n(strbuf *b, unsigned long n) { b->len = (n >= STRBUF_MAX || b->len >= STRBUF_MAX - n) ? STRBUF_MAX : b->len + n; return b; }
+static inline strbuf *strbuf_put_sv(strbuf *b, sv s) { return strbuf_put_n(b, s.len); }
+static inline strbuf *strbuf_put_char(strbuf *b, char c) { return strbuf_put_n(b, 1); }
+static inline strbuf *strbuf_put_num(strbuf *b, double v) { unsigned long n = nondet_ulong(); __CPROVER_assume(n >= 1 && n <= 330); return strbuf_put_n(b, n); }
+static inline str strbuf_str(strbuf *b) { str r; r.data = (char *)malloc(b->len + 1); __CPROVER_assume(r.data != 0); r.data[b->len] = 0; r.len = b->len; r.id = 0; return r; }
 /* a C string of unknown (but finite) length: the length is opaque */
 static inline sv sv_from_cstr(const char *p) { sv r; r.data = p; r.len = nondet_ulong(); __CPROVER_assume(r.len < 4096); r.id = 0; return r; }
 static inline void str_clear(str *s) { s->len = 0; s->id = 0; if (s->data) s->data[0] = 0; }
